@@ -101,7 +101,7 @@ def load_known():
     if os.path.exists(p):
         for line in open(p):
             line = line.strip()
-            if line and not line.startswith('#'):
+            if line and not line.startswith('#') and not line.startswith('fixed:'):
                 out.append(json.loads(line))
     return out
 
